@@ -186,7 +186,7 @@ class LocMap:
 
                 if field == SLICE_STOP_ATTR:
                     # loc selections are inclusive, so iloc gets one more in the direction of the step
-                    if key.step.__class__ is int and key.step < 0:
+                    if key.step is not None and key.step < 0:
                         pos -= 1 #type: ignore
                         if pos < 0:
                             pos = None # the stop label is the first position
